@@ -8,17 +8,27 @@ F = "src/diagn/report.rs"
 _push_msg = [
     C("one_more_message", "final(self).msgs() == old(self).msgs() + 1", ["C03"]),
     C("parents_kept", "final(self).parents() == old(self).parents()", ["C03"]),
+    C("errors_monotone", "old(self).errors() <= final(self).errors() <= old(self).errors() + 1", ["C03"]),
+]
+_push_err = _push_msg + [
+    C("toplevel_error_counts", "old(self).parents() == 0 ==> final(self).errors() == old(self).errors() + 1", ["C03"]),
+]
+_push_other = _push_msg + [
+    C("toplevel_nonerror_does_not_count", "old(self).parents() == 0 ==> final(self).errors() == old(self).errors()", ["C03"]),
 ]
 
 _same = [
     C("msgs_kept", "final(self).msgs() == old(self).msgs()", ["C03"]),
+    C("errors_kept", "final(self).errors() == old(self).errors()", ["C03"]),
 ]
 
 
 def report_fns(mode="stub", slot="diagn"):
     fns = []
-    for name in ("error", "error_span", "warning", "warning_span", "note", "note_span"):
-        fns.append(Fn(F, name, impl="Report", slot=slot, mode=mode, ensures=_push_msg, props=["C03"]))
+    for name in ("error", "error_span"):
+        fns.append(Fn(F, name, impl="Report", slot=slot, mode=mode, ensures=_push_err, props=["C03"]))
+    for name in ("warning", "warning_span", "note", "note_span"):
+        fns.append(Fn(F, name, impl="Report", slot=slot, mode=mode, ensures=_push_other, props=["C03"]))
     for name in ("push_parent", "push_parent_note", "push_parent_short_note"):
         fns.append(Fn(F, name, impl="Report", slot=slot, mode=mode, props=["C03"], ensures=_same + [
             C("parent_pushed", "final(self).parents() == old(self).parents() + 1", ["C03"])]))
@@ -26,6 +36,8 @@ def report_fns(mode="stub", slot="diagn"):
                   requires=[C("has_parent", "old(self).parents() > 0", ["C03"])],
                   ensures=_same + [C("parent_popped", "final(self).parents() == old(self).parents() - 1", ["C03"])]))
     fns.append(Fn(F, "message", impl="Report", slot=slot, mode=mode, ensures=_push_msg, props=["C03"]))
+    fns.append(Fn(F, "stop_at_errors", impl="Report", slot=slot, mode=mode, ret="res", props=["C03"],
+                  ensures=[C("ok_iff_no_error", "res is Ok <==> self.errors() == 0", ["C03"])]))
     fns.append(Fn(F, "has_errors", impl="Report", slot=slot, mode=mode, ret="res", props=["C03"],
                   ensures=[C("has_errors_iff_messages", "res == (self.msgs() != 0)", ["C03"])]))
     return fns
